@@ -32,6 +32,7 @@
 #include <stdio.h>
 #include <stdlib.h>
 #include <string.h>
+#include <sys/stat.h>
 
 #include <unistd.h>
 #include <limits.h>
@@ -266,24 +267,76 @@ char * etcLdSoPreload_readFile ()
 void etcLdSoPreload_writeFile (char * newContent)
 {
     const char * filePath;
+    char * tmpFilePath;
+    size_t tmpFilePathBufSize;
+    struct stat fileStat;
 
     filePath = etcLdSoPreload_getFilePath();
 
-    FILE * fileHandle = fopen(filePath, "w+");
+    /*
+     * Never modify the file in place: write the new content to a temporary
+     * file in the same directory and atomically rename it over the target.
+     * This way the target always holds either the complete old or the
+     * complete new content, even if we get killed or a write fails.
+     */
+    tmpFilePathBufSize = strlen(filePath) + strlen(".tmp") + 1;
+    tmpFilePath = malloc(tmpFilePathBufSize);
+    if (tmpFilePath == NULL) {
+        fatalError("Unable to malloc() for the temporary file path.");
+    }
+    snprintf(tmpFilePath, tmpFilePathBufSize, "%s.tmp", filePath);
+
+    FILE * fileHandle = fopen(tmpFilePath, "w");
     if (fileHandle == NULL) {
         printDiagValue("ld.so.preload path", filePath);
+        printDiagValue("Temporary file path", tmpFilePath);
         printDiagValue("Error message", strerror(errno));
+        free(tmpFilePath);
         fatalError("Unable to open file for writing (missing sudo, maybe?).");
     }
 
-    if (fprintf(fileHandle, "%s", newContent) < 0) {
+    // Preserve permissions of the existing file, if any
+    if (stat(filePath, &fileStat) == 0) {
+        fchmod(fileno(fileHandle), fileStat.st_mode & 07777);
+    }
+
+    if (
+        (fprintf(fileHandle, "%s", newContent) < 0)
+        ||
+        (fflush(fileHandle) != 0)
+        ||
+        (fsync(fileno(fileHandle)) != 0)
+    ) {
         printDiagValue("ld.so.preload path", filePath);
+        printDiagValue("Temporary file path", tmpFilePath);
         printDiagValue("Error message", strerror(errno));
+        fclose(fileHandle);
+        unlink(tmpFilePath);
+        free(tmpFilePath);
         fatalError("Unable to write to file.");
     }
 
-    fclose(fileHandle);
+    if (fclose(fileHandle) != 0) {
+        printDiagValue("ld.so.preload path", filePath);
+        printDiagValue("Temporary file path", tmpFilePath);
+        printDiagValue("Error message", strerror(errno));
+        unlink(tmpFilePath);
+        free(tmpFilePath);
+        fatalError("Unable to write to file.");
+    }
+
+    if (rename(tmpFilePath, filePath) != 0) {
+        printDiagValue("ld.so.preload path", filePath);
+        printDiagValue("Temporary file path", tmpFilePath);
+        printDiagValue("Error message", strerror(errno));
+        unlink(tmpFilePath);
+        free(tmpFilePath);
+        fatalError("Unable to replace the ld.so.preload file.");
+    }
+
+    free(tmpFilePath);
 }
+
 
 
 const char * etcLdSoPreload_findEntry (const char * content, const char * entry)
